@@ -28,7 +28,8 @@ structure St where
   polls : Nat                    -- polls of the cancellation flag so far (global)
 deriving Inhabited
 
-abbrev M := StateT St (Except Stop)
+/-- the state (shared table, counters) survives an interrupt: inserts made before `Stop` stay in the table -/
+abbrev M := ExceptT Stop (StateM St)
 
 def kindExact : Nat := 0
 def kindUpper : Nat := 1
@@ -202,77 +203,111 @@ structure Outcome where
 
 /-- one worker's run of one iteration -/
 def runWorker (ctx : Ctx) (root : State) (searchDepth : Nat) (best : Option Move) (tt : TT.Access)
-    (rng : Rng.ChaCha8) (polls : Nat) : Except Stop (Eval × St) :=
-  (searchNode ctx searchDepth
+    (rng : Rng.ChaCha8) (polls : Nat) : Except Stop Eval × St :=
+  ((searchNode ctx searchDepth
     { s := root, maxDepth := searchDepth, curDepth := 0, curExt := 0,
-      alpha := - Ev.mateInPly 0, beta := Ev.mateInPly 0, prioritized := best }).run
+      alpha := - Ev.mateInPly 0, beta := Ev.mateInPly 0, prioritized := best }).run).run
     { tt, rng, nodes := 0, polls }
 
-/-- `analyze_iterative` with `workers` workers per iteration run one after the other (for one worker
-this is the real execution; for several it is one admissible schedule).
+/-- state of the iterative-deepening loop of `analyze_iterative` -/
+structure IterSt where
+  tt : TT.Access
+  rng : Rng.ChaCha8
+  events : List Event            -- in emission order
+  nodes : Nat
+  bestEval : Eval
+  bestMv : Option Move
+  polls : Nat
+  panic : Option String := Option.none
+  finished : Bool := false       -- `break` was executed
+deriving Inhabited
+
+/-- result of running the workers of one iteration one after the other -/
+structure WorkersOut where
+  tt : TT.Access
+  polls : Nat
+  evals : List Eval              -- in worker order
+  sumNodes : Nat
+  interrupted : Bool := false
+  panic : Option String := Option.none
+
+/-- worker `i` of the iteration `depth`: `search_depth = depth.saturating_sub(i % 2) + 1`, only worker 0
+gets the previous best move -/
+def runWorkers (ctx : Ctx) (root : State) (depth : Nat) (bestMv : Option Move) :
+    List (Nat × UInt64) → WorkersOut → WorkersOut
+  | [], acc => acc
+  | (i, seed) :: rest, acc =>
+    if acc.interrupted || acc.panic.isSome then acc else
+    let searchDepth := (depth - i % 2) + 1
+    match runWorker ctx root searchDepth (if i == 0 then bestMv else Option.none) acc.tt (Rng.seedFromU64 seed) acc.polls with
+    | (.ok e, st) =>
+      runWorkers ctx root depth bestMv rest
+        { acc with tt := st.tt, polls := st.polls, evals := acc.evals ++ [e], sumNodes := acc.sumNodes + st.nodes }
+    | (.error .interrupt, st) => { acc with tt := st.tt, polls := st.polls, interrupted := true }
+    | (.error (.panic why), _) => { acc with panic := some why }
+
+/-- one `rng.gen()` per worker, in order -/
+def drawSeeds : Nat → Rng.ChaCha8 → List UInt64 × Rng.ChaCha8
+  | 0, r => ([], r)
+  | n+1, r =>
+    let (v, r') := Rng.nextU64 r
+    let (vs, r'') := drawSeeds n r'
+    (v :: vs, r'')
+
+/-- the body of `for depth in 0..max_depth` -/
+def iterStep (ctx : Ctx) (root : State) (rootHash : UInt64) (workers : Nat) (depth : Nat) (st : IterSt) : IterSt :=
+  let (seeds, rng) := drawSeeds workers st.rng
+  let w := runWorkers ctx root depth st.bestMv ((List.range workers).zip seeds)
+    { tt := st.tt, polls := st.polls, evals := [], sumNodes := 0 }
+  match w.panic with
+  | some why => { st with rng, panic := some why, finished := true }
+  | Option.none =>
+    if !w.interrupted then
+      let nodes := st.nodes + w.sumNodes
+      let bestEval := match w.evals with | [] => st.bestEval | e :: es => es.foldl max e
+      let line := walkLine ctx.keys w.tt (depth + 1) root
+      let events := st.events ++ [.progress (depth + 1) nodes]
+      -- since the repair of F2: `if line.is_empty() { continue; }` (was `assert!`)
+      if line.isEmpty then
+        { st with tt := w.tt, rng, polls := w.polls, nodes, bestEval, bestMv := Option.none, events }
+      else
+        { st with tt := w.tt, rng, polls := w.polls, nodes, bestEval, bestMv := line.head?
+                  events := events ++ [.best bestEval line], finished := decide (bestEval ≥ Ev.posInf) }
+    else
+      let events := match w.tt.find rootHash.toNat with
+        | some x =>
+          if x.eval > st.bestEval then
+            let line := walkLine ctx.keys w.tt (depth + 1) root
+            if line.isEmpty then st.events else st.events ++ [.best x.eval line]
+          else st.events
+        | Option.none => st.events
+      { st with tt := w.tt, rng, polls := w.polls, events, finished := true }
+
+/-- `for depth in 0..max_depth { … }` with `break` -/
+def iterLoop (ctx : Ctx) (root : State) (rootHash : UInt64) (workersOf : Nat → Nat) :
+    Nat → Nat → IterSt → IterSt
+  | 0, _, st => st
+  | n+1, depth, st =>
+    if st.finished then st
+    else iterLoop ctx root rootHash workersOf n (depth + 1) (iterStep ctx root rootHash (workersOf depth) depth st)
+
+/-- `analyze_iterative` with `workersOf depth` workers in iteration `depth`, run one after the other (for
+one worker this is the real execution; for several it is one admissible schedule).
 `maxDepth = none` is modelled by `fuelDepth` iterations (the real loop has `usize::MAX`). -/
 def iterate (root : State) (rng0 : Rng.ChaCha8) (maxDepth : Option Nat) (art : Artifact)
-    (workersOf : Nat → Nat) (cancelAt : Option Nat) (fuelDepth : Nat := 64) : Outcome := Id.run do
+    (workersOf : Nat → Nat) (cancelAt : Option Nat) (fuelDepth : Nat := 64) : Outcome :=
   let keys := art.keys.keys
   let rootHash := Wee.hash keys root
   let history := rootHash :: art.history
   let ctx : Ctx := { keys, history, cancelAt }
-  let mut tt := art.tt
-  let mut rng := rng0
-  let mut events : Array Event := #[]
-  let mut nodes := 0
-  let mut bestEval : Eval := Ev.negInf
-  let mut bestMv : Option Move := Option.none
-  let mut polls := 0
-  let mut panicked : Option String := Option.none
   let limit := match maxDepth with | some d => d | Option.none => fuelDepth
   -- since the repair of F2: a root without legal moves is not searched at all
   let limit := if (legalMoves root).isEmpty then 0 else limit
-  for depth in [0:limit] do
-    let workers := workersOf depth
-    -- thread data: one `rng.gen()` per worker, in order
-    let mut seeds : Array UInt64 := #[]
-    for _ in [0:workers] do
-      let (v, r) := Rng.nextU64 rng
-      rng := r
-      seeds := seeds.push v
-    let mut evals : Array Eval := #[]
-    let mut interrupted := false
-    let mut sumNodes := 0
-    for i in [0:workers] do
-      if interrupted || panicked.isSome then break
-      let searchDepth := (depth - i % 2) + 1
-      match runWorker ctx root searchDepth (if i == 0 then bestMv else Option.none) tt
-              (Rng.seedFromU64 seeds[i]!) polls with
-      | .ok (e, st) =>
-        tt := st.tt; polls := st.polls; sumNodes := sumNodes + st.nodes
-        evals := evals.push e
-      | .error .interrupt => interrupted := true
-      | .error (.panic why) => panicked := some why
-    if panicked.isSome then break
-    if !interrupted then
-      nodes := nodes + sumNodes
-      bestEval := evals.foldl max evals[0]!
-      events := events.push (.progress (depth + 1) nodes)
-      let line := walkLine keys tt (depth + 1) root
-      bestMv := line.head?
-      -- since the repair of F2: `if line.is_empty() { continue; }` (was `assert!`)
-      if !line.isEmpty then
-        events := events.push (.best bestEval line)
-        if bestEval ≥ Ev.posInf then break
-    else
-      match tt.find rootHash.toNat with
-      | some x =>
-        if x.eval > bestEval then
-          let line := walkLine keys tt (depth + 1) root
-          if !line.isEmpty then
-            events := events.push (.best x.eval line)
-      | Option.none => pure ()
-      break
+  let st := iterLoop ctx root rootHash workersOf limit 0
+    { tt := art.tt, rng := rng0, events := [], nodes := 0, bestEval := Ev.negInf, bestMv := Option.none, polls := 0 }
   -- saturation warning: entries / max_entries > 0.5 (f32 division; compared exactly here, the
   -- small tables of the correspondence runs keep away from the rounding boundary)
-  if panicked.isNone && tt.entries * 2 > tt.maxEntries then
-    events := events.push .warning
-  return { events := events.toList, artifact := { keys := art.keys, tt, history }, panic := panicked }
+  let events := if st.panic.isNone && st.tt.entries * 2 > st.tt.maxEntries then st.events ++ [.warning] else st.events
+  { events, artifact := { keys := art.keys, tt := st.tt, history }, panic := st.panic }
 
 end Wee.Search
